@@ -30,10 +30,19 @@ PY_SEMANTICS = [
     "subscripts, arithmetic on None, int(), unpacking, assert; an exception the contract does not list fails a "
     "safety obligation",
     "builtins and container methods used by the verified code are assumed contracts (pyvc/builtins.py), exercised "
-    "against CPython by pyvc/axiom_test.py",
+    "against CPython by the differential part of pyvc/selftest/run.py",
     "nested mutable containers obtained by d[k] are modelled as views that write back to the parent; two "
     "different keys never alias the same inner container (no sharing of inner lists/dicts)",
     "iterating a container snapshots it at loop entry (the verified loops do not mutate what they iterate)",
+    "the element and filter expressions of a comprehension over a symbolic sequence are evaluated as total expressions: an "
+    "exception inside a comprehension (a KeyError of d[k], say) is not explored as a path",
+    "iter(x) is a position in the traversal of x, next() advances it, a traversal takes what is left; an iterator used "
+    "again after a traversal is out of reach",
+    "a recursive function verified through its own contract is verified for partial correctness (termination is not shown)",
+    "values of an abstract sort are compared with literals only through an injection that the contract declares; "
+    "attributes that a contract did not give to an object it built are out of reach, not AttributeErrors",
+    "numpy element-wise code is verified pointwise at an arbitrary index (pair); z3 may hang or crash outside its "
+    "timeouts - such a job is undecided",
 ]
 
 DROPPED = ["docstrings and comments", "LOGGER.debug/info calls (no effect on any property)",
